@@ -81,6 +81,54 @@ func main() {
 			fmt.Println("PROBLEM", x)
 		}
 		return
+	case "nilsites":
+		p, err := Load(nil, nil)
+		if err != nil {
+			os.Exit(2)
+		}
+		sites, n, prods := p.NilContractSites()
+		fmt.Println("producers:", len(prods), "call sites:", n)
+		for _, x := range prods {
+			fmt.Println("  producer", x)
+		}
+		for _, s := range sites {
+			if !s.Guarded {
+				fmt.Printf("%s: %s derefs %s\n", p.Pos(s.Deref.Pos()), FnName(s.Fn), s.Callee)
+			}
+		}
+		return
+	case "bounds":
+		p, err := Load(nil, nil)
+		if err != nil {
+			os.Exit(2)
+		}
+		tot, bad := 0, 0
+		for _, fn := range p.ModFns {
+			if !strings.HasPrefix(FnName(fn), os.Args[2]) {
+				continue
+			}
+			for _, s := range p.Facts(fn).BoundSites() {
+				tot++
+				if !s.OK {
+					bad++
+					fmt.Printf("%s: %s: %s :: %s\n", p.Pos(s.In.Pos()), FnName(fn), trunc(s.Expr, 80), trunc(s.Why, 160))
+				}
+			}
+		}
+		fmt.Println("total", tot, "undischarged", bad)
+		return
+	case "panics":
+		p, err := Load(nil, nil)
+		if err != nil {
+			os.Exit(2)
+		}
+		roots := p.httpHandlerRoots()
+		sites, n := p.reachablePanics(roots)
+		fmt.Println("roots", len(roots), "reachable module functions", n, "panic sites", len(sites))
+		for _, s := range sites {
+			fmt.Printf("%s: %s: %s   [%s]\n", p.Pos(s.In.Pos()), FnName(s.Fn), s.Desc, trunc(s.Path, 200))
+		}
+		return
 	case "callers":
 		p, err := Load(nil, nil)
 		if err != nil {
